@@ -18,7 +18,9 @@ RULE = ("structure-aware enumeration split over the shards.  Integers: every byt
         "representations), then every tag byte 0..255 at the three legal lengths, every length 0..max+2, first and "
         "second coordinates at 0, 1, p-1, p, p+1, 2^bits-1, 2^(8n)-1, abscissae without a root, flipped sign bit, "
         "second coordinate off the curve, v+p, single bit flips, neutral-element encodings with trailing bytes, points "
-        "of order two, random strings.  A case is one call sequence; distinct = distinct (function, parameter set, "
+        "of order two, random strings.  History part: reference encodings of fixed points / elements per parameter set "
+        "from a fresh context, re-encoded and decoded after every other selection immediately before (prime, pairing D/M "
+        "twist, binary, Edwards) and after random longer histories.  A case is one call sequence; distinct = distinct (function, parameter set, "
         "class, bytes)")
 ASSUMPTIONS = ["verif/model/codec.py describes the wire formats correctly (self-tested at import on SEC 1 / NIST vectors)",
                "the compression bit is the one the library's encoder emits (documented in codec.py); consistency of "
@@ -29,6 +31,9 @@ ASSUMPTIONS = ["verif/model/codec.py describes the wire formats correctly (self-
                "(nothing more than 'on the curve' is demanded); it must accept every encoded subgroup point",
                "bn_read_str / fp_read_str: for strings containing a character that is not a digit of the radix the "
                "result must be an error or the value of the longest valid prefix (the header is silent)",
+               "encodings are a function of (parameter set, object) only: the bytes written and the objects decoded in a context "
+               "with any history of earlier selections must equal those of a freshly initialised context holding only that "
+               "selection; the model's sign convention per curve kind is the one observed in the fresh context",
                "a write into a longer buffer must succeed with the encoding at the documented position "
                "(integers right-aligned zero-padded, points at the front)"]
 
@@ -45,7 +50,10 @@ def parts(tier):
             dict(part="px", cfg="asan256", shards=4 if q else 8),
             dict(part="px", cfg="asan381", shards=2 if q else 4),
             dict(part="eb", cfg="asan256", shards=2 if q else 4),
-            dict(part="ed", cfg="asan255", shards=1 if q else 2)]
+            dict(part="ed", cfg="asan255", shards=1 if q else 2),
+            dict(part="hist", cfg="asan256", shards=4 if q else 8),
+            dict(part="hist", cfg="asan255", shards=1 if q else 2),
+            dict(part="hist", cfg="asan381", shards=1 if q else 2)]
 
 
 class Env(object):
@@ -94,7 +102,8 @@ class Env(object):
 def run(ctx, part):
     E = Env(ctx)
     R = E.R
-    {"bn": run_bn, "fp": run_fp, "ep": run_ep, "px": run_px, "eb": run_eb, "ed": run_ed}[part](E)
+    {"bn": run_bn, "fp": run_fp, "ep": run_ep, "px": run_px, "eb": run_eb, "ed": run_ed,
+     "hist": run_hist}[part](E)
     ctx.note("functions_exercised", sorted(R.fn_seen))
     ctx.note("error_codes_seen", {str(k): v for k, v in R.err_codes.items()})
     for k, v in E.notes.items():
@@ -1988,3 +1997,306 @@ def run_fp12_gt(E, name, F2):
     R.free(x)
     R.free(y)
     R.free(z)
+
+
+# ========================================================================== independence of the selection history
+def run_hist(E):
+    """encodings must depend on (parameter set, object) only, not on which sets were selected earlier in the context"""
+    import ctypes
+    import hashlib
+    ctx, R, rng = E.ctx, E.R, E.rng
+    K = R.K
+    sz_ctx = K["sizeof_ctx_t"]
+    n = K["RLC_FP_BYTES"]
+    sels = [("ep", nm) for nm, _ in R.ep_param_ids()]
+    if R.has("eb_param_set"):
+        for nm, v in R.EH.get("relic_eb.h", {}).items():
+            if not R.call("eb_param_set", v).caught:
+                sels.append(("eb", nm))
+    if R.has("ed_param_set"):
+        for nm, v in R.EH.get("relic_ed.h", {}).items():
+            if not R.call("ed_param_set", v).caught:
+                sels.append(("ed", nm))
+    E.notes["parameter_sets"] = [nm for _, nm in sels]
+    pairing = getattr(R, "TWIST_TYPE", {})
+
+    def fixed(tag, mod):
+        return int.from_bytes(hashlib.sha512(tag.encode()).digest(), "big") % mod
+
+    def select(sel):
+        kind, name = sel
+        if kind == "ep":
+            return set_prime_curve(R, name)
+        r = R.call(kind + "_param_set", R.E[name])
+        if r.caught:
+            raise RuntimeError("%s_param_set(%s) failed" % (kind, name))
+        if kind == "ed":
+            R.fp_setup()
+        return None
+
+    def points_io(io, pts, writes, reads, prefix, ref_writes):
+        """write every point in both forms; decode the reference bytes (the fresh ones, or our own in the fresh pass)"""
+        for i, P in enumerate([None] + pts):
+            for pack in (0, 1):
+                form = "pack" if pack else "full"
+                io.poison(io.P)
+                io.put(io.P, P, "affine")
+                sz = R.call(io.size, io.P, pack)
+                ln = sz.r if not sz.caught and 0 < sz.r < 4096 else 1
+                out = E.mem(ln)
+                w = R.call(io.write, out, ln, io.P, pack)
+                key = (io.write, form, i)
+                writes[key] = None if w.caught else R.get(out, ln)
+                exp = io.pc.encode(P, pack)
+                ctx.check(writes[key] == exp, "%s|%s|value" % (prefix % io.write, form),
+                          {"point": i, "got": writes[key].hex() if writes[key] else None, "exp": exp.hex()})
+                src = (ref_writes or writes).get(key)
+                if src is not None:
+                    io.poison(io.Q)
+                    rr = R.call(io.read, io.Q, E.put(src), len(src))
+                    reads[(io.read, form, i)] = "error" if rr.caught else repr(io.get(io.Q))
+                    want = repr(((("inf",) if P is None else ("pt", P[0], P[1])), True))
+                    ctx.check(reads[(io.read, form, i)] == want, "%s|%s|decoded-value" % (prefix % io.read, form),
+                              {"point": i, "got": reads[(io.read, form, i)][:300]})
+        E.release()
+
+    def observe(sel, ref, prefix, ref_obs=None):
+        """-> (writes, reads); ref holds the models built in the fresh context"""
+        kind, name = sel
+        writes, reads = {}, {}
+        rw = ref_obs[0] if ref_obs else None
+        if kind == "ep":
+            p = ref["p"]
+            io = EpIO(E, "ep", name, ref["pc"], p)
+            points_io(io, ref["pts"], writes, reads, prefix, rw)
+            R.free(io.P)
+            R.free(io.Q)
+            # prime field and extension fields, unpacked
+            a = R.fp_new()
+            for i, v in enumerate(ref["fpvals"]):
+                R.fp_put(a, v)
+                out = E.mem(n)
+                w = R.call("fp_write_bin", out, n, a)
+                writes[("fp_write_bin", "full", i)] = None if w.caught else R.get(out, n)
+                ctx.check(writes[("fp_write_bin", "full", i)] == v.to_bytes(n, "big"), "%s|full|value" % (prefix % "fp_write_bin"), {"v": hx(v)})
+                rr = R.call("fp_read_bin", a, E.put(v.to_bytes(n, "big")), n)
+                reads[("fp_read_bin", "full", i)] = "error" if rr.caught else repr(R.fp_get(a))
+                ctx.check(reads[("fp_read_bin", "full", i)] == repr((v, True)), "%s|full|decoded-value" % (prefix % "fp_read_bin"), {"v": hx(v)})
+            R.free(a)
+            for deg, haspack in ((2, True), (3, False), (12, True)):
+                cs = ref["fpx"][deg]
+                x = R.fpx_new(deg, cs)
+                out = E.mem(deg * n)
+                fn = "fp%d_write_bin" % deg
+                w = R.call(fn, *([out, deg * n, x] + ([0] if haspack else [])))
+                exp = b"".join(c.to_bytes(n, "big") for c in cs)
+                writes[(fn, "full", 0)] = None if w.caught else R.get(out, deg * n)
+                ctx.check(writes[(fn, "full", 0)] == exp, "%s|full|value" % (prefix % fn), {"deg": deg})
+                rr = R.call("fp%d_read_bin" % deg, x, E.put(exp), deg * n)
+                reads[("fp%d_read_bin" % deg, "full", 0)] = "error" if rr.caught else repr(R.fpx_get(x, deg))
+                ctx.check(reads[("fp%d_read_bin" % deg, "full", 0)] == repr((cs, True)), "%s|full|decoded-value" % (prefix % ("fp%d_read_bin" % deg)), {"deg": deg})
+                R.free(x)
+            E.release()
+            if name in pairing and "pc2" in ref:
+                io2 = Ep2IO(E, "ep2", name, ref["pc2"], ref["F2"])
+                points_io(io2, ref["pts2"], writes, reads, prefix, rw)
+                R.free(io2.P)
+                R.free(io2.Q)
+                # target group: the generator recorded in the fresh context, both forms, and back
+                x = R.fpx_new(12, ref["gt"])
+                y = R.fpx_new(12)
+                for pack in (0, 1):
+                    form = "pack" if pack else "full"
+                    sz = R.call("gt_size_bin", x, pack)
+                    ln = sz.i if not sz.caught and 0 < sz.i < 8192 else 1
+                    out = E.mem(ln)
+                    w = R.call("gt_write_bin", out, ln, x, pack)
+                    writes[("gt_write_bin", form, 0)] = None if w.caught else R.get(out, ln)
+                    src = (rw or writes).get(("gt_write_bin", form, 0))
+                    if src is not None:
+                        rr = R.call("gt_read_bin", y, E.put(src), len(src))
+                        reads[("gt_read_bin", form, 0)] = "error" if rr.caught else repr(R.fpx_get(y, 12))
+                        ctx.check(reads[("gt_read_bin", form, 0)] == repr((ref["gt"], True)), "%s|%s|decoded-value" % (prefix % "gt_read_bin", form))
+                R.free(x)
+                R.free(y)
+                E.release()
+        elif kind == "eb":
+            io = EbIO(E, "eb", name, ref["pc"], ref["G"])
+            points_io(io, ref["pts"], writes, reads, prefix, rw)
+            R.free(io.P)
+            R.free(io.Q)
+            nb, nd = K["RLC_FB_BYTES"], K["RLC_FB_DIGS"] * R.DB
+            x = R.mem(K["sizeof_fb_st"], 0)
+            v = ref["fbval"]
+            ctypes.memmove(x, v.to_bytes(nd, "little"), nd)
+            out = E.mem(nb)
+            w = R.call("fb_write_bin", out, nb, x)
+            writes[("fb_write_bin", "full", 0)] = None if w.caught else R.get(out, nb)
+            ctx.check(writes[("fb_write_bin", "full", 0)] == v.to_bytes(nb, "big"), "%s|full|value" % (prefix % "fb_write_bin"))
+            rr = R.call("fb_read_bin", x, E.put(v.to_bytes(nb, "big")), nb)
+            reads[("fb_read_bin", "full", 0)] = "error" if rr.caught else hx(int.from_bytes(R.get(x, nd), "little"))
+            ctx.check(reads[("fb_read_bin", "full", 0)] == hx(v), "%s|full|decoded-value" % (prefix % "fb_read_bin"))
+            R.free(x)
+            E.release()
+        else:
+            io = EdIO(E, "ed", name, ref["pc"], ref["p"])
+            points_io(io, ref["pts"], writes, reads, prefix, rw)
+            R.free(io.P)
+            R.free(io.Q)
+        return writes, reads
+
+    def build_ref(sel, prm):
+        """models and fixed objects of one selection, from the state of the fresh context"""
+        kind, name = sel
+        ref = {}
+        if kind == "ep":
+            p = R.p
+            bit, rule = ep_bit_rule(R, prm)
+            curve = codec.WeierCodec(codec.PrimeCoord(p, n), prm["a"], prm["b"], bit)
+            G = (prm["gx"], prm["gy"])
+            if not curve.on_curve(*G):
+                return None
+            W = WCurve(Fp(p), prm["a"], prm["b"])
+            ref.update(p=p, pc=codec.PointCodec(curve), rule=rule,
+                       pts=[G, W.mul(2, G), W.mul(3, G), W.mul(fixed(name + "k1", 1 << 64), G), W.mul(fixed(name + "k2", 1 << 64), G),
+                            W.mul(prm["n"] - 1, G)],
+                       fpvals=[1, p - 1, fixed(name + "fp", p)],
+                       fpx={d: [fixed("%s-fp%d-%d" % (name, d, i), p) for i in range(d)] for d in (2, 3, 12)})
+            if name in pairing:
+                qnr = R.L.fp_prime_get_qnr()
+                F2 = codec.Fp2Coord(p, n, qnr)
+                half = (p - 1) // 2
+                R.L.ep2_curve_get_a.restype = ctypes.c_void_p
+                R.L.ep2_curve_get_b.restype = ctypes.c_void_p
+
+                def rd2(ptr):
+                    return (R.fp_get(ptr)[0], R.fp_get(ptr + R.fp_sz)[0])
+                a2, b2 = rd2(R.L.ep2_curve_get_a()), rd2(R.L.ep2_curve_get_b())
+
+                def bit2(y):
+                    t = y[1] if y[1] % p else y[0]
+                    return 1 if t % p > half else 0
+                c2 = codec.WeierCodec(F2, a2, b2, bit2, ext=True)
+                pc2 = codec.PointCodec(c2)
+                io2 = Ep2IO(E, "ep2", name, pc2, F2)
+                R.call("ep2_curve_get_gen", io2.P)
+                g, ok = io2.get(io2.P)
+                R.free(io2.P)
+                R.free(io2.Q)
+                if g[0] == "pt" and c2.on_curve(g[1], g[2]):
+                    G2 = (g[1], g[2])
+                    W2 = WCurve(F2, a2, b2)
+                    x = R.fpx_new(12)
+                    R.call("gt_get_gen", x)
+                    ref.update(F2=F2, pc2=pc2, pts2=[G2, W2.mul(2, G2), W2.mul(fixed(name + "k3", 1 << 20) + 3, G2)],
+                               gt=R.fpx_get(x, 12)[0])
+                    R.free(x)
+        elif kind == "eb":
+            nd = K["RLC_FB_DIGS"] * R.DB
+            R.L.fb_poly_get.restype = ctypes.c_void_p
+            R.L.eb_curve_get_a.restype = ctypes.c_void_p
+            R.L.eb_curve_get_b.restype = ctypes.c_void_p
+            G2m = codec.GF2m(int.from_bytes(R.get(R.L.fb_poly_get(), nd), "little"))
+            a = int.from_bytes(R.get(R.L.eb_curve_get_a(), nd), "little")
+            b = int.from_bytes(R.get(R.L.eb_curve_get_b(), nd), "little")
+            curve = codec.BinaryCodec(G2m, a, b)
+            pc = codec.PointCodec(curve)
+            io = EbIO(E, "eb", name, pc, G2m)
+            R.call("eb_curve_get_gen", io.P)
+            g, ok = io.get(io.P)
+            R.free(io.P)
+            R.free(io.Q)
+            if g[0] != "pt" or not curve.on_curve(g[1], g[2]):
+                return None
+            Gp = (g[1], g[2])
+            ref.update(pc=pc, G=G2m, pts=[Gp, codec.scalar_mul(curve, 2, Gp), codec.scalar_mul(curve, 5, Gp),
+                                           codec.scalar_mul(curve, fixed(name + "k", 1 << 12) + 7, Gp)],
+                       fbval=fixed(name + "fb", 1 << G2m.m))
+        else:
+            p = R.p
+            if p != 2 ** 255 - 19:
+                return None
+            mont = R.mont
+            d = -121665 * pow(121666, -1, p) % p
+            curve = codec.EdwardsCodec(codec.PrimeCoord(p, n), p - 1, d, lambda x: (x * mont % p) & 1)
+            pc = codec.PointCodec(curve)
+            io = EdIO(E, "ed", name, pc, p)
+            R.call("ed_curve_get_gen", io.P)
+            g, ok = io.get(io.P)
+            R.free(io.P)
+            R.free(io.Q)
+            if g[0] != "pt" or not curve.on_curve(g[1], g[2]):
+                return None
+            Gp = (g[1], g[2])
+            ref.update(p=p, pc=pc, pts=[Gp, codec.scalar_mul(curve, 2, Gp), codec.scalar_mul(curve, 3, Gp),
+                                        codec.scalar_mul(curve, fixed(name + "k", 1 << 64), Gp)])
+        return ref
+
+    # ---- reference observations: one freshly initialised context per selection
+    old = R.S.vf_core_get()
+    refs, fresh = {}, {}
+    for sel in sels:
+        blk = R.mem(sz_ctx, 0)
+        R.raw("core_set", blk)
+        if R.L.core_init() != 0:
+            raise RuntimeError("core_init in a fresh context failed")
+        R.ctx = R.S.vf_core_get()
+        try:
+            if ctx.begin("fresh|%s" % sel[1], list(sel), budget=300):
+                try:
+                    prm = select(sel)
+                    ref = build_ref(sel, prm)
+                    if ref is None:
+                        ctx.fail("fresh|%s|model-rejects-parameters" % sel[1])
+                    else:
+                        refs[sel] = ref
+                        fresh[sel] = observe(sel, ref, "%s|" + sel[1] + "|fresh")
+                except MonitorViolation as e:
+                    ctx.fail(ctx.cur_key + "|" + e.kind, e.detail)
+                finally:
+                    ctx.end()
+                    E.release()
+        finally:
+            R.L.core_clean()
+            R.raw("core_set", old)
+            R.ctx = old
+            R.free(blk)
+    E.notes["compression_bit_rule_fresh"] = {sel[1]: refs[sel]["rule"] for sel in refs if "rule" in refs[sel]}
+
+    # ---- histories in the long-lived context
+    targets = [sel for sel in sels if sel in fresh]
+    hists = []
+    for T in targets:
+        for S in sels:
+            hists.append([S, T])                      # every other selection (and the same one) immediately before
+    for _ in range(ctx.n(12, 200)):
+        T = rng.choice(targets)
+        hists.append([rng.choice(sels) for _ in range(rng.randrange(2, 5))] + [T])
+    for hi, hist in enumerate(hists):
+        if not E.mine():
+            continue
+        T, S = hist[-1], hist[-2]
+        if not ctx.begin("history|%s|after:%s" % (T[1], S[1]), [h[1] for h in hist], budget=300):
+            continue
+        try:
+            for sel in hist[:-1]:
+                select(sel)
+                if sel in refs and rng.random() < 0.5:        # use the intermediate selection, not only select it
+                    observe(sel, refs[sel], "%s|" + sel[1] + "|intermediate", fresh[sel])
+            select(T)
+            prefix = "%s|" + T[1] + "|after:" + S[1]
+            w, r = observe(T, refs[T], prefix, fresh[T])
+            fw, fr = fresh[T]
+            for key in fw:
+                ctx.check(w.get(key) == fw[key], "%s|%s|bytes-differ-from-fresh" % (prefix % key[0], key[1]),
+                          {"object": key[2], "history": [h[1] for h in hist], "got": w[key].hex() if w.get(key) else None,
+                           "fresh": fw[key].hex() if fw[key] else None})
+            for key in fr:
+                ctx.check(r.get(key) == fr[key], "%s|%s|decoded-differs-from-fresh" % (prefix % key[0], key[1]),
+                          {"object": key[2], "history": [h[1] for h in hist], "got": str(r.get(key))[:300], "fresh": fr[key][:300]})
+        except MonitorViolation as e:
+            ctx.fail(ctx.cur_key + "|" + e.kind, e.detail)
+        finally:
+            ctx.end()
+            E.release()
+    E.notes["histories_executed"] = len(hists) if ctx.shard == 0 else 0
